@@ -78,7 +78,17 @@ class Outcome:
             self.samples.append(s)
 
     def fail(self, case, what, **kw):
-        if len(self.oracle_failures) < 50:
+        fid = kw.get("finding")
+        if fid:
+            # known-finding candidates must not crowd out new failures: keep a few per id
+            n = sum(1 for f in self.oracle_failures if f.get("finding") == fid)
+            if n >= 3:
+                return
+            d = dict(case=case, what=what)
+            d.update(kw)
+            self.oracle_failures.append(d)
+            return
+        if sum(1 for f in self.oracle_failures if not f.get("finding")) < 50:
             d = dict(case=case, what=what)
             d.update(kw)
             self.oracle_failures.append(d)
